@@ -1,6 +1,7 @@
 package main
 
 import (
+	"go/token"
 	"sort"
 	"fmt"
 	"go/types"
@@ -90,6 +91,42 @@ func runC07(c *Ctx) {
 		c.Check(okSub, "O2", "PAIR", funcKey(sub)+": Sub inside the ancestor walk", sub.Pos(), "remaining.Sub(reclaimed)", "the reclaimed amount is not subtracted from the remaining share inside the ancestor walk")
 	}
 
+	// ---- O2 (ext.): the level at which reclaimer and reclaimee are compared is the FIRST level where their queue
+	// paths differ (for queues of different departments: the departments, not the leaf queues). Once the paths have
+	// diverged the scan does not look at deeper levels. GHOST: the ghost bit is "the paths differed at some level";
+	// with it set, the comparison of a further level must not execute.
+	if glq := c.Anchor("O2", pkgReclaimable, "Reclaimable", "getLeveledQueues"); glq != nil {
+		isUIDCmp := func(in ssa.Instruction) (*ssa.BinOp, bool) {
+			bo, ok := in.(*ssa.BinOp)
+			if !ok || (bo.Op != token.NEQ && bo.Op != token.EQL) {
+				return nil, false
+			}
+			return bo, termOf(bo.X).lastField() == "UID" && termOf(bo.Y).lastField() == "UID"
+		}
+		spec := &ghostSpec{
+			Event: func(in ssa.Instruction) (ssa.Value, bool, bool) {
+				if bo, ok := isUIDCmp(in); ok {
+					return bo, bo.Op == token.NEQ, true
+				}
+				return nil, false, false
+			},
+			Forbidden: func(in ssa.Instruction) bool { _, ok := isUIDCmp(in); return ok },
+			ResultIdx: -1,
+			MaxDepth:  3,
+		}
+		run := p.ghostVerdict(glq, spec)
+		key := funcKey(glq) + ": the scan over the two queue paths stops at the first level where they differ"
+		switch {
+		case run.Undec != "":
+			c.Undec("O2", "GHOST", key, glq.Pos(), run.Undec)
+		case run.Events == 0:
+			c.Undec("O2", "GHOST", key, glq.Pos(), "no level-by-level comparison of queue UIDs found")
+		default:
+			c.Check(len(run.Finds) == 0, "O2", "GHOST", key, glq.Pos(), fmt.Sprintf("%d abstract states: no deeper level is compared after the paths diverged", run.States),
+				"after the reclaimer's and the reclaimee's queue paths have diverged the scan goes on to deeper levels: queues of different departments are compared leaf against leaf instead of department against department, so a department under its quota can have pods reclaimed by a department that is also under quota — and allocate hands them back in the next cycle — "+ghostWhy(p, run))
+		}
+	}
+
 	// ---- O3: strategies
 	if v, ok := p.Obj(pkgStrategies, "strategies").(*types.Var); ok {
 		c.Check(compositeLen(p, v) == 2, "O3", "CONST", pkgStrategies+".strategies has 2 elements", v.Pos(), "MaintainFairShare, GuaranteeDeservedQuota", "the list of reclaim strategies changed (expected exactly MaintainFairShare and GuaranteeDeservedQuota)")
@@ -109,20 +146,39 @@ func runC07(c *Ctx) {
 	}
 	if g := c.Anchor("O3", pkgStrategies, "GuaranteeDeservedQuotaStrategy", "Reclaimable"); g != nil {
 		tfg := fx.retFacts(g, 0, WantTrue, 0)
-		_, a := hasFact(tfg, func(f Fact) bool { return !f.Pol && isCallNamed(f.T, "reclaimerWillGoOverQuota") })
+		// "the reclaimer stays within its deserved quota": allocated(+request) ≤ deserved of the RECLAIMER queue (param 2),
+		// whatever the helper that computes it is called and whichever polarity it returns
+		_, a := hasFact(tfg, func(f Fact) bool {
+			return f.Pol && isCallNamed(f.T, "LessEqual") && len(f.T.Args) == 2 &&
+				isCallNamed(f.T.Args[1], "GetDeservedShare") && rootParam(f.T.Args[1]) == 2 &&
+				isCallNamed(f.T.Args[0], "GetAllocatedShare") && rootParam(f.T.Args[0]) == 2
+		})
 		_, b := hasFact(tfg, func(f Fact) bool { return leq(f, false, 4, "GetDeservedShare", 3) })
-		c.Check(a, "O3", "RET", funcKey(g)+": reclaimer stays within deserved quota", g.Pos(), "!reclaimerWillGoOverQuota", "the guarantee-deserved-quota strategy accepts although the reclaimer would exceed its deserved quota")
+		c.Check(a, "O3", "RET", funcKey(g)+": reclaimer stays within deserved quota", g.Pos(), "reclaimer allocated+request ≤ deserved", "the guarantee-deserved-quota strategy accepts although the reclaimer would exceed its deserved quota")
 		c.Check(b, "O3", "RET", funcKey(g)+": reclaimee remains above deserved quota", g.Pos(), "!remaining.LessEqual(reclaimee.GetDeservedShare())", "the guarantee-deserved-quota strategy takes from a queue whose remaining share is within its deserved quota in every resource")
-	}
-	if over := c.Anchor("O3", pkgStrategies, "", "reclaimerWillGoOverQuota"); over != nil {
-		ff := fx.retFacts(over, 0, WantFalse, 0)
-		_, ok := hasFact(ff, func(f Fact) bool { return f.Pol && isCallNamed(f.T, "LessEqual") && isCallNamed(f.T.Args[1], "GetDeservedShare") })
-		c.Check(ok, "O3", "RET", funcKey(over)+": false ⇒ allocated+request ≤ deserved", over.Pos(), "LessEqual(GetDeservedShare)", "reclaimerWillGoOverQuota answers 'no' without comparing with the deserved share")
-		addOK := len(instrsIn(over, func(in ssa.Instruction) bool {
+		// the request is added to the reclaimer's allocation before that comparison (in the strategy or its helper)
+		nLE := 0
+		for _, h := range p.deepFind(g, func(in ssa.Instruction) bool {
 			cc, ok := in.(ssa.CallInstruction)
-			return ok && calleeOf(cc) != nil && calleeOf(cc).Name() == "Add"
-		})) > 0
-		c.Check(addOK, "O3", "MPT", funcKey(over)+": the request is added before comparing", over.Pos(), "Add(request)", "the reclaimer's request is not added to its allocation before the comparison")
+			if !ok || calleeOf(cc) == nil || calleeOf(cc).Name() != "LessEqual" || len(cc.Common().Args) != 2 {
+				return false
+			}
+			return isCallNamed(termOf(cc.Common().Args[0]), "GetAllocatedShare") && isCallNamed(termOf(cc.Common().Args[1]), "GetDeservedShare")
+		}, 2) {
+			nLE++
+			recv := h.In.(ssa.CallInstruction).Common().Args[0]
+			addOK := false
+			for _, ad := range instrsIn(h.In.Parent(), func(in ssa.Instruction) bool {
+				cc, ok := in.(ssa.CallInstruction)
+				return ok && calleeOf(cc) != nil && calleeOf(cc).Name() == "Add"
+			}) {
+				if ad.(ssa.CallInstruction).Common().Args[0] == recv && dominatesInstr(ad, h.In) {
+					addOK = true
+				}
+			}
+			c.Check(addOK, "O3", "MPT", funcKey(h.In.Parent())+": the request is added before comparing", instrPos(h.In), "Add(request)", "the reclaimer's request is not added to its allocation before the comparison")
+		}
+		c.Floor("O3", "MPT reclaimer quota comparisons", nLE, 1)
 	}
 	if m := c.Anchor("O3", pkgStrategies, "MaintainFairShareStrategy", "Reclaimable"); m != nil {
 		tfm := fx.retFacts(m, 0, WantTrue, 0)
